@@ -270,6 +270,10 @@ def checkLine (f : Fields) (ans : Fields) (panicked : Bool) : Verdict :=
     let v := v.add ((getF ans "RUNS" == "PANIC") == (e1.isSome || e2.isSome)) "M:panic"
     let v := v.add ((getF ans "RO" == "PANIC") == e3.isSome) "M:panic"
     let v := v.add (!anyPanic) "S:C07"
+    -- a call that panics returns nothing: the property about its result is violated too
+    let v := v.add (getF ans "RL" != "PANIC" && getF ans "RPC" != "PANIC") "S:C03"
+    let v := v.add (getF ans "VL" != "PANIC" && getF ans "RUNS" != "PANIC" && getF ans "DRUNS" != "PANIC") "S:C05"
+    let v := v.add (getF ans "RO" != "PANIC") "S:C06"
     if anyPanic then v
     else
       let rl := natList (getF ans "RL")
@@ -602,6 +606,8 @@ def processLine (line : String) : Option String :=
         | "digest" => {}
         | "serde" => ({} : Verdict).add (getF ans "BAD" == "") "S:C20"
         | _ => ({} : Verdict).add false "M:unknown-op"
+      -- a call that panics outright gives no answer at all: every property about its result is violated
+      let v := if panicked then v.add false "S:PANIC" else v
       let verdict := if v.toks.isEmpty then "ok" else "FAIL " ++ String.intercalate " " v.toks.eraseDups
       some s!"{id} {mode} {op} {verdict} | {v.stats}"
     | _ => none
